@@ -84,14 +84,18 @@ func runSysWS(x *X) {
 		names = append(names, p.Name)
 	}
 	o := sysOpts{strategy: strategies[c.Intn(5, "strategy")], nBackends: 1 + c.Intn(2, "nbackends"), plugins: chain, wsPool: c.Intn(2, "wspool") == 1}
-	o.timeouts = config.TimeoutConfig{Read: 5, Write: 5, Idle: 30, BackendRead: 5, Handler: 5}
+	o.timeouts = config.TimeoutConfig{Read: 5, Write: 5, Idle: 30, BackendRead: 5, Handler: 1 + c.Intn(5, "handler-timeout")}
+	// the handshake's Connection header is a token list (RFC 9110 7.6.1); browsers differ
+	connHdr := []string{"Upgrade", "upgrade", "keep-alive, Upgrade", "Upgrade, keep-alive", "Keep-Alive,upgrade"}[c.Intn(5, "conn-header")]
+	// quiet periods inside the session: longer than every configured timeout
+	idles := c.Intn(3, "idles")
 	o.logging.RequestID.Enabled = c.Intn(2, "rid") == 1
 	env, err := newSysEnv(x, o)
 	if err != nil {
 		panic(err)
 	}
 	defer env.close()
-	x.Sample["config"] = fmt.Sprintf("chain=%v strategy=%s backends=%d request_id=%v", names, o.strategy, o.nBackends, o.logging.RequestID.Enabled)
+	x.Sample["config"] = fmt.Sprintf("chain=%v strategy=%s backends=%d request_id=%v connection=%q handler_timeout=%d idles=%d", names, o.strategy, o.nBackends, o.logging.RequestID.Enabled, connHdr, o.timeouts.Handler, idles)
 	x.Logf("sysws %s", x.Sample["config"])
 	client, backend := &wsEnd{}, &wsEnd{}
 	// the scripted backends answer an Upgrade request themselves
@@ -110,7 +114,7 @@ func runSysWS(x *X) {
 			upgradeErr = err.Error()
 			return
 		}
-		io.WriteString(conn, "GET /ws/chat?room=1 HTTP/1.1\r\nHost: helios.test\r\nUpgrade: websocket\r\nConnection: Upgrade\r\nSec-WebSocket-Key: dGhlIHNhbXBsZSBub25jZQ==\r\nSec-WebSocket-Version: 13\r\nX-API-Key: k\r\nAccept-Encoding: gzip\r\n\r\n")
+		io.WriteString(conn, "GET /ws/chat?room=1 HTTP/1.1\r\nHost: helios.test\r\nUpgrade: websocket\r\nConnection: "+connHdr+"\r\nSec-WebSocket-Key: dGhlIHNhbXBsZSBub25jZQ==\r\nSec-WebSocket-Version: 13\r\nX-API-Key: k\r\nAccept-Encoding: gzip\r\n\r\n")
 		br := bufio.NewReader(conn)
 		resp, err := http.ReadResponse(br, &http.Request{Method: "GET"})
 		if err != nil {
@@ -162,7 +166,7 @@ func runSysWS(x *X) {
 	ci, bi := 0, 0
 	closer := c.Intn(3, "closer") // 0 client, 1 backend, 2 client after everything
 	closeAfter := c.Intn(len(cMsgs)+len(bMsgs)+1, "close-after")
-	writes, closed := 0, false
+	writes, closed, cutSeen := 0, false, false
 	extra := func() []string {
 		client.mu.Lock()
 		backend.mu.Lock()
@@ -175,6 +179,9 @@ func runSysWS(x *X) {
 		var evs []string
 		if writes >= closeAfter || (ci >= len(cMsgs) && bi >= len(bMsgs)) {
 			return []string{"close"}
+		}
+		if idles > 0 {
+			evs = append(evs, "idle")
 		}
 		if ci < len(cMsgs) {
 			evs = append(evs, "c-write")
@@ -196,6 +203,20 @@ func runSysWS(x *X) {
 			backend.sent = append(backend.sent, bMsgs[bi]...)
 			bi++
 			writes++
+		case "idle":
+			idles--
+			d := []time.Duration{1500 * time.Millisecond, 7 * time.Second, 45 * time.Second}[c.Intn(3, "idle-for")]
+			x.Fault("session-idle")
+			time.Sleep(d)
+			client.mu.Lock()
+			backend.mu.Lock()
+			cut := client.eof || backend.eof
+			backend.mu.Unlock()
+			client.mu.Unlock()
+			if cut && !cutSeen {
+				cutSeen = true
+				x.Violate("C20", "C20/session-cut-by-helios", "after %v of silence in an open session (Connection: %s, handler timeout %ds) one end saw its connection closed although neither side had closed", d, connHdr, o.timeouts.Handler)
+			}
 		case "close":
 			closed = true
 			if closer == 1 {
@@ -207,7 +228,7 @@ func runSysWS(x *X) {
 	}
 	// a placeholder exchange keeps the driver alive until the tunnel is closed
 	done := false
-	env.driveUntil(driveOpts{fragment: true, delays: true, maxVirtual: 2 * time.Minute, extra: extra, applyExtra: apply}, func() bool {
+	env.driveUntil(driveOpts{fragment: true, delays: true, maxVirtual: 5 * time.Minute, extra: extra, applyExtra: apply}, func() bool {
 		if upgradeErr != "" {
 			return true
 		}
@@ -251,7 +272,7 @@ func runSysWS(x *X) {
 		x.Violate("C20", "C20/bytes-lost-or-altered{prefix}", "the closing side received %d bytes which are not a prefix of the %d bytes sent to it (first difference at %d)", len(other.recv), len(survivor.sent), firstDiff(other.recv, survivor.sent))
 	}
 	if !done || !survivor.eof {
-		x.Violate("C20", "C20/close-not-propagated{to-"+sname+"}", "one side closed the tunnel and the %s still had an open connection two simulated minutes later", sname)
+		x.Violate("C20", "C20/close-not-propagated{to-"+sname+"}", "one side closed the tunnel and the %s still had an open connection several simulated minutes later", sname)
 	}
 	x.State(fmt.Sprint(names), fmt.Sprint(closer))
 }
